@@ -275,7 +275,7 @@ Definition msg_wf (m : msg) : Prop :=
 Lemma assemble_snap_wf : forall ps sn, Forall piece_wf ps -> assemble_snap ps = Good sn -> snap_wf sn.
 Proof.
   intros ps sn F H. unfold assemble_snap in H. destruct ps as [|[[[s0|l0] o] l] r]; try discriminate H.
-  cbv iota beta in H. revert H. destruct (pieces_contig s0 0 ((Good s0, o, l) :: r)); intros H. 2:{ Show. discriminate H. } injection H as <-.
+  cbv iota beta in H. match type of H with (if ?b then _ else _) = _ => destruct b end; [|discriminate H]. injection H as <-.
   inversion F as [|? ? P _]. exact P.
 Qed.
 
